@@ -835,6 +835,7 @@ func (m *Machine) PrependMut(mut *Mutation) Result {
 		mut.QueueTickNow = m.queueTick
 	}
 	m.queueMx.Unlock()
+	verifPoint(m, "qm:prepended")
 
 	// tracers
 	if !isEval {
@@ -2028,6 +2029,7 @@ func (m *Machine) processQueue() Result {
 		verifPoint(m, "pq:empty")
 		return Canceled
 	}
+	verifPoint(m, "pq:preOk")
 
 	// try to acquire the lock TODO safer locking for handler deadlines?
 	if !m.queueProcessing.CompareAndSwap(false, true) {
